@@ -404,6 +404,8 @@ impl<'a> LaxPacketHeaders<'a> {
                     }
                 };
                 result.net = Some(NetHeaders::Arp(arp));
+                // an ARP packet has no payload (same as in `PacketHeaders`)
+                result.payload = LaxPayloadSlice::Empty;
                 return result;
             }
             _ => {}
